@@ -524,9 +524,12 @@ class expandafter(Command):
         if isinstance(aftertok, Macro):
             expanded = aftertok.invoke(tex)
 
-        expanded = expanded or [aftertok]
+        # `None' means that the macro itself goes into the output stream;
+        # an empty expansion is really empty
+        if expanded is None:
+            expanded = [aftertok]
 
-        return [nexttok] + expanded
+        return [nexttok] + list(expanded)
 
 class vskip(Command):
     args = 'size:Dimen'
